@@ -45,7 +45,15 @@ func genC10(r *core.Rand, run int) *MuxScenario {
 			sp := sc.Reqs[i]
 			if sp.Fault.Kind == "" && (sp.Proto == "grpc" || sp.Proto == "grpcweb") && !sp.LateClose {
 				twin := sp
-				twin.ID, twin.TwinOf, twin.Proto, twin.Codec, twin.Window = 100+sp.ID, sp.ID, "direct", "proto", 0
+				twin.ID, twin.TwinOf, twin.Proto, twin.Window = 100+sp.ID, sp.ID, "direct", 0
+				if sp.Codec != "proto" {
+					// JSON cannot carry an undeclared field: the twin must not send one either
+					twin.Msgs = append([]MsgSpec(nil), sp.Msgs...)
+					for i := range twin.Msgs {
+						twin.Msgs[i].Unknown = false
+					}
+				}
+				twin.Codec = "proto"
 				sc.Reqs = append(sc.Reqs, twin)
 				break
 			}
@@ -70,7 +78,7 @@ func genProxiedRequest(r *core.Rand, id, limit int) ReqSpec {
 		n = r.Intn(7)
 	}
 	for i := 0; i < n; i++ {
-		sp.Msgs = append(sp.Msgs, MsgSpec{Size: r.Pick(0, 1, 8, 64, 100, 1000), Seed: r.U64() >> 8})
+		sp.Msgs = append(sp.Msgs, MsgSpec{Size: r.Pick(0, 1, 8, 64, 100, 1000), Seed: r.U64() >> 8, Unknown: r.Chance(1, 4)})
 	}
 	h := HandlerSpec{FailCode: int(codes.Aborted)}
 	nresp := 1
